@@ -14,11 +14,6 @@ typedef struct S_ZTSN3ipr4util6stringE ustring_t;
 #define NWORD 56
 #define AS_STRING(s) (&(s)->__b0.__b0.__b0)      /* impl::String -> ipr::String */
 
-/* ---- u8string_view comparisons */
-_Bool @{sv_eq}(sv_t a, sv_t b) { return sv_equal(a, b); }
-struct S_ZTSSt15strong_ordering @{sv_spaceship}(sv_t a, sv_t b) { struct S_ZTSSt15strong_ordering r; __builtin_memset(&r, 0, sizeof r); *(signed char*)&r = (signed char)sv_cmp3(a, b); return r; }
-_Bool @{ord_lt}(struct S_ZTSSt15strong_ordering o, struct S_ZTSNSt9__cmp_cat8__unspecE z) { return *(signed char*)&o < 0; }
-
 /* ---- std::lower_bound on the reserved-word table: first element for which comp(elem, value) is false (specification
    of lower_bound on a range partitioned by comp; the source static_asserts that the table is sorted) */
 word_t* @{lower_bound}(word_t* first, word_t* last, sv_t* value, struct Slambda__ZN3ipr4impl12_GLOBAL__N_17word_ltE comp)
